@@ -48,6 +48,10 @@ type srvCfg struct {
 	storeFail bool // the underlying BEP 44 store fails Put for items with seq % 7 == 3
 	cbBlock   bool // the OnAnnouncePeer hook does not return until the history releases it (event hookrel)
 	psEmpty   bool // the peer store answers "no peers" with an empty non-nil slice instead of nil
+	// autoID: ServerConfig.NodeId is left unset, the node draws its own id (InitNodeId). `root` is then only the
+	// id the history was generated around; the running case takes Server.ID() as the root and moves every id of
+	// the history by root XOR Server.ID(), which keeps each id's bucket (shared prefix with the root) as generated
+	autoID   bool
 	scenario string
 }
 
@@ -116,6 +120,9 @@ type srvState struct {
 	// on the current gate; hookHeld = calls waiting right now (each is one goroutine of the library)
 	hookGate chan struct{}
 	hookHeld int64
+	// autoID cases: generated root XOR the id the node chose (all-zero: nothing to move)
+	xl   [20]byte
+	xlOn bool
 }
 
 type tokInfo struct {
@@ -132,19 +139,35 @@ func (st *srvState) now() time.Time {
 func (st *srvState) waitQuiet() bool {
 	deadline := time.Now().Add(5 * time.Second)
 	stable := 0
+	var lowSince time.Time
 	for {
 		want := st.base + 2*int(atomic.LoadInt64(&st.started)-atomic.LoadInt64(&st.returned)) + int(atomic.LoadInt64(&st.hookHeld))
 		// every started query is either still registered or has returned to the harness
 		var npend int
 		guard("VerifPending", fmt.Sprintf("case=%d scenario=%s", st.c.idx, st.c.cfg.scenario), func() { npend = len(st.s.VerifPending()) })
 		settled := int64(npend)+atomic.LoadInt64(&st.returned) == atomic.LoadInt64(&st.started)
-		if settled && runtime.NumGoroutine() == want {
+		n := runtime.NumGoroutine()
+		if settled && n == want {
 			stable++
 			if stable >= 2 {
 				return true
 			}
 		} else {
 			stable = 0
+		}
+		// FEWER goroutines than accounted for, steadily: nothing of the node is running that should not be; the baseline
+		// was read while a goroutine that does not belong to this case was still counted. Lower it (a goroutine that
+		// keeps running shows as MORE than accounted for and is reported as before).
+		if settled && n < want {
+			if lowSince.IsZero() {
+				lowSince = time.Now()
+			} else if time.Since(lowSince) > 300*time.Millisecond {
+				emit("# case %d: goroutine baseline lowered by %d (read while a goroutine outside the case was still counted)", st.c.idx, want-n)
+				st.base -= want - n
+				lowSince = time.Time{}
+			}
+		} else {
+			lowSince = time.Time{}
 		}
 		if time.Now().After(deadline) {
 			return false
@@ -210,7 +233,6 @@ func startServer(c *srvCase) *srvState {
 		tokens: map[string][]tokInfo{}, announced: map[string]map[string]int{}, lastTok: map[string]string{}, bl: c.cfg.bl}
 	st.vclock = time.Unix(1_700_000_000, 123456789)
 	cfg := &dht.ServerConfig{
-		NodeId:           c.cfg.root,
 		Conn:             st.conn,
 		Passive:          c.cfg.passive,
 		NoSecurity:       c.cfg.nosec,
@@ -220,6 +242,9 @@ func startServer(c *srvCase) *srvState {
 		Logger:           log.Logger{}.FilterLevel(log.Critical),
 		DefaultWant:      []krpc.Want{krpc.WantNodes, krpc.WantNodes6},
 		Exp:              2 * time.Hour,
+	}
+	if !c.cfg.autoID {
+		cfg.NodeId = c.cfg.root
 	}
 	st.mem = bep44.NewMemory()
 	cfg.Store = st.mem
@@ -275,7 +300,20 @@ func startServer(c *srvCase) *srvState {
 	}
 	st.s = s
 	// the node's own id is what ID() reports; a configured NodeId must be kept
-	if s.ID() != c.cfg.root {
+	if c.cfg.autoID {
+		// no NodeId configured: the node's id is whatever ID() reports (random, or derived from the socket address
+		// and the public IP); it is the root of its table and the id its replies carry. A caller's ServerConfig value
+		// may or may not be filled in by NewServer, nothing is demanded of it.
+		id := s.ID()
+		if id == [20]byte{} {
+			oracle("C05", "server-without-configured-node-id-has-zero-id", "case=%d scenario=%s", c.idx, c.cfg.scenario)
+		}
+		for i := range id {
+			st.xl[i] = id[i] ^ c.cfg.root[i]
+		}
+		st.xlOn = st.xl != [20]byte{}
+		c.cfg.root = id
+	} else if s.ID() != c.cfg.root {
 		oracle("C05", "server-id-differs-from-configured-node-id", "case=%d configured=%x id=%x", c.idx, c.cfg.root, s.ID())
 		c.cfg.root = s.ID()
 	}
@@ -285,7 +323,15 @@ func startServer(c *srvCase) *srvState {
 		time.Sleep(20 * time.Microsecond)
 	}
 	time.Sleep(200 * time.Microsecond)
+	// only the serve loop runs now; anything else that is still counted (a goroutine of the previous case on its way
+	// out, the runtime's finalizer goroutine while it runs a finalizer) is transient: the baseline is the lowest reading
 	st.base = runtime.NumGoroutine()
+	for i := 0; i < 4; i++ {
+		time.Sleep(100 * time.Microsecond)
+		if n := runtime.NumGoroutine(); n < st.base {
+			st.base = n
+		}
+	}
 	st.lastComp = time.Now()
 	return st
 }
@@ -343,6 +389,9 @@ func (st *srvState) exec(ei int, e *sev) {
 	if e.dyn != nil {
 		e.dyn(st, e)
 	}
+	if st.xlOn {
+		st.translate(e)
+	}
 	if e.pre != "" {
 		emit("%s", e.pre)
 	}
@@ -379,6 +428,12 @@ func (st *srvState) exec(ei int, e *sev) {
 		}
 		if !st.conn.inject(data, e.src, 5*time.Second) && !st.closed {
 			oracle("C01", "serve-loop-stuck", "case=%d ev=%d %s", c.idx, ei, lhs)
+			// C08: the datagram was taken off the socket 5 s ago, its handler has not come back and nothing was written:
+			// a query that is owed a reply (every query but a write without a fresh token) has not got one
+			if decodes && inMsg.Y == "q" && !c.cfg.passive && !blockedSrc && e.src.Port != 0 && e.size == 0 && !vetoed(c.cfg.veto, inMsg.Q) && c.cfg.budget < 0 &&
+				st.conn.pendingWrites() == 0 && st.owedReply(e, inMsg) {
+				oracle("C08", "query-not-answered:"+methodKey(inMsg.Q)+":node-stopped-serving", "case=%d ev=%d scenario=%s no datagram 5 s after the query was read and the serve loop has not returned [%s]", c.idx, ei, c.cfg.scenario, lhs)
+			}
 			if atomic.LoadInt64(&st.hookHeld) > 0 {
 				// the serve loop may be waiting for the application hook: reported; let the history go on
 				oracle("C01", "serve-loop-stuck-while-announce-hook-blocks", "case=%d ev=%d %s", c.idx, ei, lhs)
@@ -910,15 +965,7 @@ func (st *srvState) oracleTokens(e *sev, in *krpc.Msg, out *krpc.Msg, cbs, padds
 	}
 	if (in.Q == "announce_peer" || in.Q == "put") && in.A != nil {
 		// youngest issuance of this token string to this IP
-		var age time.Duration = -1
-		for _, ti := range st.tokens[in.A.Token] {
-			if ti.ip16 == ipk {
-				a := now.Sub(ti.at)
-				if age < 0 || a < age {
-					age = a
-				}
-			}
-		}
+		age := st.tokenAge(in.A.Token, e.src.IP)
 		effect := out != nil || len(cbs) > 0 || len(padds) > 0
 		if (age < 0 || age > 15*time.Minute) && effect {
 			why := "never-issued-to-this-ip"
@@ -997,6 +1044,88 @@ func (st *srvState) oracleTokens(e *sev, in *krpc.Msg, out *krpc.Msg, cbs, padds
 	}
 }
 
+// age of the youngest issuance of this token string to this IP on the history's clock; -1: never issued to it
+func (st *srvState) tokenAge(tok string, ip net.IP) time.Duration {
+	now := st.now()
+	ipk := ipKey(ip)
+	var age time.Duration = -1
+	for _, ti := range st.tokens[tok] {
+		if ti.ip16 == ipk {
+			a := now.Sub(ti.at)
+			if age < 0 || a < age {
+				age = a
+			}
+		}
+	}
+	return age
+}
+
+// owedReply: C08 promises a datagram for every query except a write (announce_peer / put with arguments) whose
+// token is not a fresh one of this node for the sender's IP
+func (st *srvState) owedReply(e *sev, in *krpc.Msg) bool {
+	if (in.Q == "announce_peer" || in.Q == "put") && in.A != nil {
+		age := st.tokenAge(in.A.Token, e.src.IP)
+		return age >= 0 && age < 10*time.Minute
+	}
+	return true
+}
+
+// method name as part of an oracle key
+func methodKey(q string) string {
+	switch q {
+	case "ping", "find_node", "get_peers", "get", "announce_peer", "put":
+		return q
+	}
+	return "other-method"
+}
+
+// translate moves every node id / target / info-hash of the event by st.xl (autoID cases). All-zero values stay
+// (an absent field, the zero id).
+func (st *srvState) translate(e *sev) {
+	x := func(id *[20]byte) {
+		if *id == [20]byte{} {
+			return
+		}
+		for i := range id {
+			id[i] ^= st.xl[i]
+		}
+	}
+	x(&e.id)
+	x((*[20]byte)(&e.args.Target))
+	x((*[20]byte)(&e.args.InfoHash))
+	if e.msg == nil {
+		return
+	}
+	m := *e.msg
+	if m.A != nil {
+		a := *m.A
+		x((*[20]byte)(&a.ID))
+		x((*[20]byte)(&a.Target))
+		x((*[20]byte)(&a.InfoHash))
+		m.A = &a
+	}
+	if m.R != nil {
+		r := *m.R
+		x((*[20]byte)(&r.ID))
+		if r.Nodes != nil {
+			l := append(krpc.CompactIPv4NodeInfo(nil), r.Nodes...)
+			for i := range l {
+				x((*[20]byte)(&l[i].ID))
+			}
+			r.Nodes = l
+		}
+		if r.Nodes6 != nil {
+			l := append(krpc.CompactIPv6NodeInfo(nil), r.Nodes6...)
+			for i := range l {
+				x((*[20]byte)(&l[i].ID))
+			}
+			r.Nodes6 = l
+		}
+		m.R = &r
+	}
+	e.msg = &m
+}
+
 func wants(ws []krpc.Want, w string, dflt bool) bool {
 	if len(ws) == 0 {
 		return dflt
@@ -1010,7 +1139,20 @@ func wants(ws []krpc.Want, w string, dflt bool) bool {
 }
 
 // C09: node lists of find_node / get_peers / get replies
+// The oracle reads "bucket" as the table does (the bucket an entry is stored in); when some entry is stored in another
+// bucket than its id's distance from the node's own id gives (C05's concern), the rules are evaluated a second time with
+// the buckets the ids define: the property speaks of nearness to the target, whatever the table's layout.
 func (st *srvState) oracleNodes(e *sev, in *krpc.Msg, out *krpc.Msg, pre []dht.VerifNode, ctxs string) {
+	st.oracleNodesBy(e, in, out, pre, ctxs, func(n dht.VerifNode) int { return n.Bucket })
+	for _, n := range pre {
+		if n.Id != st.c.cfg.root && n.Bucket != sharedPrefix(st.c.cfg.root, n.Id) {
+			st.oracleNodesBy(e, in, out, pre, ctxs, func(n dht.VerifNode) int { return sharedPrefix(st.c.cfg.root, n.Id) })
+			break
+		}
+	}
+}
+
+func (st *srvState) oracleNodesBy(e *sev, in *krpc.Msg, out *krpc.Msg, pre []dht.VerifNode, ctxs string, bk func(dht.VerifNode) int) {
 	c := st.c
 	if out == nil || out.R == nil || in.A == nil {
 		return
@@ -1067,8 +1209,8 @@ func (st *srvState) oracleNodes(e *sev, in *krpc.Msg, out *krpc.Msg, pre []dht.V
 			if !tn.Good || tn.ResponseAgeNs < 0 {
 				oracle("C09", "reply-lists-contact-that-is-not-good", "%s contact=%x good=%v", ctxs, ni.ID, tn.Good)
 			}
-			if tn.Bucket < minBucket {
-				minBucket = tn.Bucket
+			if bk(*tn) < minBucket {
+				minBucket = bk(*tn)
 			}
 		}
 		// order rule relative to the target the query names
@@ -1078,7 +1220,7 @@ func (st *srvState) oracleNodes(e *sev, in *krpc.Msg, out *krpc.Msg, pre []dht.V
 		}
 		family := func(n dht.VerifNode) bool { return (net.IP(n.IP).To4() == nil) == v6 }
 		for _, n := range pre {
-			if !n.Good || !family(n) || n.Bucket > start {
+			if !n.Good || !family(n) || bk(n) > start {
 				continue
 			}
 			k := string(n.Id[:]) + "|" + n.Addr
@@ -1086,16 +1228,16 @@ func (st *srvState) oracleNodes(e *sev, in *krpc.Msg, out *krpc.Msg, pre []dht.V
 				continue
 			}
 			// a good contact of a nearer-or-equal bucket (index >= minBucket... nearer = larger index) omitted
-			if n.Bucket > minBucket {
-				oracle("C09", "nearer-bucket-contact-omitted", "%s method=%s omitted=%x bucket=%d farthest-included-bucket=%d start=%d", ctxs, in.Q, n.Id, n.Bucket, minBucket, start)
+			if bk(n) > minBucket {
+				oracle("C09", "nearer-bucket-contact-omitted", "%s method=%s omitted=%x bucket=%d farthest-included-bucket=%d start=%d", ctxs, in.Q, n.Id, bk(n), minBucket, start)
 			} else if len(list) < 8 {
-				oracle("C09", "fewer-than-8-while-buckets-not-exhausted", "%s method=%s omitted=%x bucket=%d", ctxs, in.Q, n.Id, n.Bucket)
+				oracle("C09", "fewer-than-8-while-buckets-not-exhausted", "%s method=%s omitted=%x bucket=%d", ctxs, in.Q, n.Id, bk(n))
 			}
 		}
 		for _, ni := range list {
 			for _, n := range pre {
-				if n.Id == [20]byte(ni.ID) && n.Bucket > start {
-					oracle("C09", "contact-from-bucket-beyond-target", "%s method=%s contact=%x bucket=%d start=%d", ctxs, in.Q, n.Id, n.Bucket, start)
+				if n.Id == [20]byte(ni.ID) && bk(n) > start {
+					oracle("C09", "contact-from-bucket-beyond-target", "%s method=%s contact=%x bucket=%d start=%d", ctxs, in.Q, n.Id, bk(n), start)
 				}
 			}
 		}
@@ -1111,7 +1253,7 @@ func (st *srvState) oracleNodes(e *sev, in *krpc.Msg, out *krpc.Msg, pre []dht.V
 		}
 		for _, n := range pre {
 			v6 := net.IP(n.IP).To4() == nil
-			if !n.Good || n.Bucket > start {
+			if !n.Good || bk(n) > start {
 				continue
 			}
 			if v6 && w6 && len(out.R.Nodes6) == 0 {
@@ -1132,7 +1274,7 @@ func (st *srvState) oracleNodes(e *sev, in *krpc.Msg, out *krpc.Msg, pre []dht.V
 		}
 		for _, n := range pre {
 			v6 := net.IP(n.IP).To4() == nil
-			if n.Good && n.Bucket <= start && ((v6 && w6) || (!v6 && w4)) {
+			if n.Good && bk(n) <= start && ((v6 && w6) || (!v6 && w4)) {
 				oracle("C09", "empty-node-list-while-good-contacts-exist", "%s method=%s start=%d have=%x", ctxs, in.Q, start, n.Id)
 				break
 			}
@@ -1176,8 +1318,8 @@ func serverEngine(seed uint64, tier string, args []string) {
 }
 
 func runServerCase(c *srvCase) {
-	cfg := c.cfg
 	st := startServer(c)
+	cfg := c.cfg // after the start: an unset NodeId has been replaced by the id the node chose
 	secret := st.s.VerifTokenSecret()
 	// C10: a token "issued by another node" can only be refused if nodes do not share their secret
 	if len(secret) != 20 || isZero(secret) || string(secret) == lastSecret {
